@@ -123,6 +123,26 @@ Section Finish.
       Ok (bytes, start, nlen frags mod 4294967296, f2)
     end.
 
+  (* if (cfg->exportable) sqfs_dir_writer_write_export_table(dirwr, file, cmp, root->inode_num, root->inode_ref, &super):
+     (the export array, bytes appended, export_table_start, flags) *)
+  Definition export_write (exportable : bool) (w : dw) (size0 root_num root_ref start0 flags : N)
+    : res (option (list N) * list N * N * N) :=
+    if exportable then
+      do (w', bytes, st) <- lift (dw_write_export_table compress w size0 root_num root_ref);
+      match st with
+      | Some start => Ok (dw_export w', bytes, start, flag_set flags c_SQFS_FLAG_EXPORTABLE)
+      | None => Ok (dw_export w', bytes, start0, flags)
+      end
+    else Ok (None, [], start0, flags).
+
+  (* if (!cfg->no_xattr) sqfs_xattr_writer_flush(xwr, file, &super, cmp): (bytes appended, xattr_id_table_start, flags) *)
+  Definition xattr_write (no_xattr : bool) (x : option (list N * N)) (size0 start0 flags : N) : list N * N * N :=
+    if no_xattr then ([], start0, flags)
+    else match x with
+         | None => ([], SuperModel.NO_TABLE, flag_set flags c_SQFS_FLAG_NO_XATTRS)
+         | Some (xb, off) => (xb, size0 + off, flag_clr flags c_SQFS_FLAG_NO_XATTRS)
+         end.
+
   Definition ev_write (off : N) (d : list N) : list TraceModel.event :=
     match d with [] => [] | _ => [TraceModel.PWrite off d] end.
 
@@ -148,22 +168,12 @@ Section Finish.
         frag_write size1 (in_frags inp) (SuperModel.s_frag_count s0) flags0;
       let size2 := size1 + lenN fragb in
       do (xt, exportb, export_start, flags2) <-
-        (if c_exportable cfg then
-           do (w', bytes, st) <- lift (dw_write_export_table compress w size2 (nlen t) (si_root img));
-           match st with
-           | Some start => Ok (dw_export w', bytes, start, flag_set flags1 c_SQFS_FLAG_EXPORTABLE)
-           | None => Ok (dw_export w', bytes, SuperModel.s_export_start s0, flags1)
-           end
-         else Ok (None, [], SuperModel.s_export_start s0, flags1));
+        export_write (c_exportable cfg) w size2 (nlen t) (si_root img) (SuperModel.s_export_start s0) flags1;
       let size3 := size2 + lenN exportb in
       do (idb, id_start) <- lift (write_table compress size3 (id_table_bytes (si_ids img)));
       let size4 := size3 + lenN idb in
       let '(xattrb, xattr_start, flags3) :=
-        if c_no_xattr cfg then ([], SuperModel.s_xattr_start s0, flags2)
-        else match in_xattr inp with
-             | None => ([], SuperModel.NO_TABLE, flag_set flags2 c_SQFS_FLAG_NO_XATTRS)
-             | Some (xb, off) => (xb, size4 + off, flag_clr flags2 c_SQFS_FLAG_NO_XATTRS)
-             end in
+        xattr_write (c_no_xattr cfg) (in_xattr inp) size4 (SuperModel.s_xattr_start s0) flags2 in
       let bytes_used := size4 + lenN xattrb in
       if c_devblk cfg =? 0 then Crash else
       let pad := pad_len bytes_used (c_devblk cfg) in
